@@ -36,7 +36,12 @@ import (
 // C39 — integrity validator. Case line: <mode> <objects>   (see coq/Model/Integrity.v)
 //
 //	mode    V = report only, D = delete corrupted (force)
-//	objects comma separated  <kind>:<faults>[:<tamper>] ; object i is created i-th, <j> refers to an EARLIER object
+//	<objects> = <bucket>/<bucket>/... ; bucket = <u|v><letter>=<object>,<object>,...  (u unversioned, v versioning enabled,
+//	          bucket name "bkt-<letter>"; buckets are created in this order, object i of EVERY bucket has the key obj-<i>,
+//	          contents differ per bucket). A line without '=' is one unversioned bucket.
+//	objects comma separated  <kind>[+]:<faults>[:<tamper>] ; object i is created i-th, <j> refers to an EARLIER object of the same bucket
+//	  +     the key first gets an older PutObject (a noncurrent version in a versioned bucket, overwritten otherwise);
+//	        <faults> then starts with one extra letter for the older version's part
 //	  kind  S   PutObject                         E   PutObject of empty content
 //	        T<j> PutObject of the same bytes as PutObject j (deduplicated: shares j's part)
 //	        M<n> F<n> C<n>  multipart upload with n=1..3 parts, checksum type unspecified / FULL_OBJECT / COMPOSITE
@@ -52,8 +57,10 @@ import (
 //	          n  part-count suffix "-N" of ETag (and of a composite CRC32) replaced by "-9"
 //	          t  checksum type switched COMPOSITE <-> FULL_OBJECT
 //
-// Output: <ValidateAll> | <per-object>
+// Output: <ValidateAll> | <post-state> | <per-object>      (letters of the buckets separated by '/')
 //
+//	post-state  = full version listing + contents of every key before/after the run: K unchanged, G every version gone,
+//	              M all versions kept and one delete marker added on top, ! anything else (or contents of a surviving intact version changed)
 //	ValidateAll = ERR  or  one letter per object from the report of the REAL ValidateAll checked against the storage
 //	              afterwards (- success, R reported, D reported+"Deleted"+gone, ? absent, ! action and presence disagree)
 //	              followed by :<TotalObjects>/<FailedObjects>/<DeletedObjects>
@@ -64,7 +71,24 @@ func init() { register("C39", c39{}) }
 
 func (c39) Parallel() bool { return true }
 
+type c39Bucket struct {
+	versioned bool
+	name      storage.BucketName
+	toks      []string
+	objs      []c39Obj
+}
+
+type c39Ver struct {
+	id             string
+	marker, latest bool
+}
+
 type c39Obj struct {
+	hasOld     bool
+	oldFault   byte
+	oldContent []byte
+	oldFile    string
+	oldCorrupt bool
 	kind    string // S E T M F C A A1 AC K R P
 	n       int    // part count for M F C
 	ref     int    // for T K R P
@@ -83,6 +107,12 @@ type c39Obj struct {
 func c39ParseObj(t string) c39Obj {
 	f := strings.Split(t, ":")
 	o := c39Obj{faults: f[1], ref: -1}
+	if strings.HasSuffix(f[0], "+") {
+		f[0] = strings.TrimSuffix(f[0], "+")
+		o.hasOld = true
+		o.oldFault = o.faults[0]
+		o.faults = o.faults[1:]
+	}
 	if len(f) > 2 {
 		o.tamper = f[2]
 	}
@@ -111,103 +141,151 @@ func c39Content(seed, part int, size int) []byte {
 }
 
 // ---- generator -------------------------------------------------------------------------------
+func c39GenBucket(r *Rng, no int, corruptPct int, versioned bool) string {
+	kinds := make([]string, 0, no)
+	nparts := make([]int, 0, no)
+	orig := []int{}
+	puts := []int{}
+	usedR := map[int]bool{}
+	usedP := map[int]bool{}
+	for i := 0; i < no; i++ {
+		var k string
+		np := 1
+		switch x := r.Intn(20); {
+		case x < 4:
+			k = "S"
+		case x == 4:
+			k = "E"
+		case x == 5 && len(puts) > 0:
+			k = fmt.Sprintf("T%d", puts[r.Intn(len(puts))])
+		case x < 9:
+			np = 2 + r.Intn(2)
+			if r.Chance(10) {
+				np = 1
+			}
+			k = fmt.Sprintf("C%d", np)
+		case x < 11:
+			np = 2 + r.Intn(2)
+			if r.Chance(12) {
+				np = 1
+			}
+			k = fmt.Sprintf("%s%d", []string{"M", "F"}[r.Intn(2)], np)
+		case x == 11:
+			k, np = "A", 2
+		case x == 12:
+			if r.Chance(15) {
+				k, np = "A1", 1
+			} else {
+				k, np = "AC", 3
+			}
+		case x < 16 && i > 0:
+			j := r.Intn(i)
+			k, np = fmt.Sprintf("K%d", j), nparts[j]
+		case x < 18 && len(orig) > 0:
+			j := orig[r.Intn(len(orig))]
+			if usedR[j] {
+				k = "S"
+			} else {
+				usedR[j] = true
+				k = fmt.Sprintf("R%d", j)
+			}
+		case len(orig) > 0:
+			j := orig[r.Intn(len(orig))]
+			if usedP[j] {
+				k = "S"
+			} else {
+				usedP[j] = true
+				k = fmt.Sprintf("P%d", j)
+			}
+		default:
+			k = "S"
+		}
+		if k == "S" {
+			puts = append(puts, i)
+		}
+		if k[0] != 'K' && k[0] != 'R' && k[0] != 'P' && k[0] != 'T' && k != "E" {
+			orig = append(orig, i)
+		}
+		kinds = append(kinds, k)
+		nparts = append(nparts, np)
+	}
+	objs := make([]string, no)
+	for i, k := range kinds {
+		fl := bytes.Repeat([]byte{'N'}, nparts[i])
+		if r.Chance(corruptPct) {
+			for j := range fl {
+				if r.Chance(60) || len(fl) == 1 {
+					fl[j] = "FTX"[r.Intn(3)]
+				}
+			}
+			if k == "E" {
+				fl[0] = "NX"[r.Intn(2)]
+			}
+		}
+		old := ""
+		if k != "A" && k != "A1" && k != "AC" && r.Chance(map[bool]int{true: 40, false: 10}[versioned]) {
+			old = "+"
+			of := byte('N')
+			if r.Chance(corruptPct / 2) {
+				of = "FTX"[r.Intn(3)]
+			}
+			fl = append([]byte{of}, fl...)
+		}
+		o := k + old + ":" + string(fl)
+		if r.Chance(corruptPct/3) && k != "E" {
+			tm := "ecn"[r.Intn(3)]
+			multi := (k[0] == 'C' || k[0] == 'F') && nparts[i] >= 2
+			if multi && r.Chance(60) {
+				tm = 't'
+			}
+			o += ":" + string(tm)
+		}
+		objs[i] = o
+	}
+	return strings.Join(objs, ",")
+}
+
 func (c39) Gen(r *Rng, tier string, n int) []string {
 	cases := make([]string, 0, n)
 	for len(cases) < n {
-		no := 3 + r.Intn(8)
-		kinds := make([]string, 0, no)
-		nparts := make([]int, 0, no)
-		orig := []int{}     // indices of non-copy objects with size >= 3 (ranged copy sources)
-		puts := []int{}     // indices of S objects
-		usedR := map[int]bool{}
-		usedP := map[int]bool{}
-		for i := 0; i < no; i++ {
-			var k string
-			np := 1
-			switch x := r.Intn(20); {
-			case x < 3:
-				k = "S"
-			case x == 3:
-				k = "E"
-			case x == 4 && len(puts) > 0:
-				k = fmt.Sprintf("T%d", puts[r.Intn(len(puts))])
-			case x < 8:
-				np = 1 + r.Intn(3)
-				if r.Chance(70) && np == 1 {
-					np = 2
-				}
-				k = fmt.Sprintf("C%d", np)
-			case x < 10:
-				np = 1 + r.Intn(3)
-				k = fmt.Sprintf("%s%d", []string{"M", "F"}[r.Intn(2)], np)
-			case x == 10:
-				k, np = "A", 2
-			case x == 11:
-				if r.Bool() {
-					k, np = "A1", 1
-				} else {
-					k, np = "AC", 3
-				}
-			case x < 16 && i > 0:
-				j := r.Intn(i)
-				k, np = fmt.Sprintf("K%d", j), nparts[j]
-			case x < 18 && len(orig) > 0:
-				j := orig[r.Intn(len(orig))]
-				if usedR[j] {
-					k = "S"
-				} else {
-					usedR[j] = true
-					k = fmt.Sprintf("R%d", j)
-				}
-			case len(orig) > 0:
-				j := orig[r.Intn(len(orig))]
-				if usedP[j] {
-					k = "S"
-				} else {
-					usedP[j] = true
-					k = fmt.Sprintf("P%d", j)
-				}
-			default:
-				k = "S"
-			}
-			if k == "S" {
-				puts = append(puts, i)
-			}
-			if k[0] != 'K' && k[0] != 'R' && k[0] != 'P' && k[0] != 'T' && k != "E" {
-				orig = append(orig, i)
-			}
-			kinds = append(kinds, k)
-			nparts = append(nparts, np)
+		nb := 1
+		if r.Chance(80) {
+			nb = 2 + r.Intn(3)
 		}
-		objs := make([]string, no)
-		for i, k := range kinds {
-			fl := bytes.Repeat([]byte{'N'}, nparts[i])
-			if r.Chance(30) {
-				for j := range fl {
-					if r.Chance(60) || len(fl) == 1 {
-						fl[j] = "FTX"[r.Intn(3)]
-					}
-				}
-				if k == "E" {
-					fl[0] = "NX"[r.Intn(2)]
+		letters := []string{"a", "b", "c", "d"}
+		for i := len(letters) - 1; i > 0; i-- {
+			j := r.Intn(i + 1)
+			letters[i], letters[j] = letters[j], letters[i]
+		}
+		// where the corruption goes: everywhere, or concentrated in one bucket that is not the last one
+		only := -1
+		if nb > 1 && r.Chance(50) {
+			only = r.Intn(nb - 1)
+		}
+		bs := make([]string, nb)
+		for b := range bs {
+			no := 1 + r.Intn(5)
+			if r.Chance(12) {
+				no = 8 + r.Intn(6) // many objects in one bucket
+			}
+			if nb == 1 {
+				no = 3 + r.Intn(8)
+			}
+			pct := 30
+			if only >= 0 {
+				pct = 0
+				if b == only {
+					pct = 60
 				}
 			}
-			o := k + ":" + string(fl)
-			if r.Chance(10) && k != "E" {
-				tm := "ecn"[r.Intn(3)]
-				multi := (k[0] == 'C' || k[0] == 'F') && nparts[i] >= 2
-				if multi && r.Chance(60) {
-					tm = 't'
-				}
-				o += ":" + string(tm)
-			}
-			objs[i] = o
+			versioned := r.Chance(35)
+			bs[b] = map[bool]string{true: "v", false: "u"}[versioned] + letters[b] + "=" + c39GenBucket(r, no, pct, versioned)
 		}
 		mode := "V"
-		if r.Chance(40) {
+		if r.Chance(55) {
 			mode = "D"
 		}
-		cases = append(cases, mode+" "+strings.Join(objs, ","))
+		cases = append(cases, mode+" "+strings.Join(bs, "/"))
 	}
 	return cases
 }
@@ -286,11 +364,49 @@ func c39FreshDB(path string) {
 	}
 }
 
+func c39Versions(ctx context.Context, st storage.Storage, bucket storage.BucketName) map[string][]c39Ver {
+	out := map[string][]c39Ver{}
+	var km, vm *string
+	for {
+		res, err := st.ListObjectVersions(ctx, bucket, storage.ListObjectVersionsOptions{KeyMarker: km, VersionIDMarker: vm, MaxKeys: 1000})
+		if err != nil {
+			panic(err)
+		}
+		for _, v := range res.Versions {
+			out[v.Key.String()] = append(out[v.Key.String()], c39Ver{v.VersionID, v.IsDeleteMarker, v.IsLatest})
+		}
+		if !res.IsTruncated {
+			return out
+		}
+		km, vm = res.NextKeyMarker, res.NextVersionIDMarker
+	}
+}
+
+func c39ReadVersion(ctx context.Context, st storage.Storage, bucket storage.BucketName, key storage.ObjectKey, versioned bool, id string) ([]byte, error) {
+	var opts *storage.GetObjectOptions
+	if versioned {
+		opts = &storage.GetObjectOptions{VersionID: &id}
+	}
+	_, rcs, err := st.GetObject(ctx, bucket, key, nil, opts)
+	if err != nil {
+		return nil, err
+	}
+	var all []byte
+	for _, rc := range rcs {
+		b, err := io.ReadAll(rc)
+		rc.Close()
+		if err != nil {
+			return nil, err
+		}
+		all = append(all, b...)
+	}
+	return all, nil
+}
+
 func (c39) Run(in string, scratch string) Result {
 	c39Quiet.Do(func() { slog.SetDefault(slog.New(slog.NewTextHandler(io.Discard, nil))) })
 	f := strings.Split(in, " ")
 	mode := f[0]
-	toks := strings.Split(f[1], ",")
 	ctx := context.Background()
 	c39FreshDB(filepath.Join(scratch, "pithos.db"))
 	db, err := sqlite.OpenDatabase(filepath.Join(scratch, "pithos.db"))
@@ -324,122 +440,33 @@ func (c39) Run(in string, scratch string) Result {
 	must(err)
 	must(st.Start(ctx))
 	defer st.Stop(ctx)
-	bucket := storage.MustNewBucketName("bucket")
-	must(st.CreateBucket(ctx, bucket))
 
-	objs := make([]c39Obj, len(toks))
-	multipart := func(o *c39Obj, i int, typ *string, np int) {
-		up, err := st.CreateMultipartUpload(ctx, bucket, o.key, nil, typ, nil)
-		must(err)
-		for p := 0; p < np; p++ {
-			b := c39Content(i, p, 25+i+p)
-			o.parts = append(o.parts, b)
-			o.content = append(o.content, b...)
-			_, err := st.UploadPart(ctx, bucket, o.key, up.UploadId, int32(p+1), bytes.NewReader(b), nil)
-			must(err)
+	// ---- buckets
+	var buckets []*c39Bucket
+	for _, bt := range strings.Split(f[1], "/") {
+		bk := &c39Bucket{}
+		if k := strings.Index(bt, "="); k >= 0 {
+			bk.versioned = bt[0] == 'v'
+			bk.name = storage.MustNewBucketName("bkt-" + bt[1:k])
+			bt = bt[k+1:]
+		} else {
+			bk.name = storage.MustNewBucketName("bucket")
 		}
-		_, err = st.CompleteMultipartUpload(ctx, bucket, o.key, up.UploadId, nil, nil)
-		must(err)
+		bk.toks = strings.Split(bt, ",")
+		must(st.CreateBucket(ctx, bk.name))
+		if bk.versioned {
+			en := storage.BucketVersioningStatusEnabled
+			must(st.PutBucketVersioningConfiguration(ctx, bk.name, &storage.BucketVersioningConfiguration{Status: &en}))
+		}
+		buckets = append(buckets, bk)
 	}
-	for i, t := range toks {
-		o := c39ParseObj(t)
-		o.key = storage.MustNewObjectKey(fmt.Sprintf("obj-%02d", i))
-		switch o.kind {
-		case "S", "E", "T":
-			switch o.kind {
-			case "S":
-				o.content = c39Content(i, 0, 40+i)
-			case "T":
-				o.content = objs[o.ref].content
-			}
-			o.parts = [][]byte{o.content}
-			_, err := st.PutObject(ctx, bucket, o.key, nil, bytes.NewReader(o.content), nil, nil)
-			must(err)
-			o.expectPlain()
-		case "M":
-			multipart(&o, i, nil, o.n)
-			o.expectMultipart("FULL_OBJECT") // an unspecified checksum type is recorded/validated as FULL_OBJECT
-			o.expType = "?"
-		case "F":
-			typ := storage.ChecksumTypeFullObject
-			multipart(&o, i, &typ, o.n)
-			o.expectMultipart("FULL_OBJECT")
-		case "C":
-			typ := storage.ChecksumTypeComposite
-			multipart(&o, i, &typ, o.n)
-			o.expectMultipart("COMPOSITE")
-		case "A", "A1", "AC":
-			switch o.kind {
-			case "A":
-				b := c39Content(i, 0, 30+i)
-				o.parts, o.content = [][]byte{b}, append([]byte{}, b...)
-				_, err := st.PutObject(ctx, bucket, o.key, nil, bytes.NewReader(b), nil, nil)
-				must(err)
-			case "AC":
-				typ := storage.ChecksumTypeComposite
-				multipart(&o, i, &typ, 2)
-			}
-			b := c39Content(i, 7, 20+i)
-			o.parts = append(o.parts, b)
-			o.content = append(o.content, b...)
-			_, err := st.AppendObject(ctx, bucket, o.key, bytes.NewReader(b), nil, nil)
-			must(err)
-			o.expETag, o.expCRC, o.expSHA, o.expType = c39MultiETag(o.parts), "", "", "FULL_OBJECT"
-		case "K":
-			src := objs[o.ref]
-			_, err := st.CopyObject(ctx, bucket, src.key, bucket, o.key, nil)
-			must(err)
-			o.parts, o.content = src.parts, src.content
-			o.expETag, o.expCRC, o.expSHA, o.expType = src.expETag, src.expCRC, src.expSHA, src.expType
-		case "R", "P":
-			src := objs[o.ref]
-			s, e := int64(0), int64(len(src.content))
-			if o.kind == "P" {
-				s, e = 1, e-1
-			}
-			_, err := st.CopyObject(ctx, bucket, src.key, bucket, o.key, &storage.CopyObjectOptions{Range: &storage.ByteRange{Start: &s, End: &e}})
-			must(err)
-			o.content = src.content[s:e]
-			o.parts = [][]byte{o.content}
-			o.expectPlain()
-			o.expType = "FULL_OBJECT"
-		}
-		o.nparts = len(o.parts)
-		objs[i] = o
+	bucketIdx := map[string]int{}
+	for bi, bk := range buckets {
+		bucketIdx[bk.name.String()] = bi
 	}
-	// ---- what the storage recorded, against the independent arithmetic
-	recorded := "OK"
-	listed0, err := storage.ListAllObjectsOfBucket(ctx, st, bucket)
-	must(err)
-	for _, lo := range listed0 {
-		var idx int
-		fmt.Sscanf(lo.Key.String(), "obj-%02d", &idx)
-		o := &objs[idx]
-		opt := func(p *string) string {
-			if p == nil {
-				return ""
-			}
-			return *p
-		}
-		switch {
-		case c39Unquote(lo.ETag) != o.expETag:
-			recorded = fmt.Sprintf("FAIL:object %d (%s): recorded ETag %s, bytes say %s", idx, toks[idx], lo.ETag, o.expETag)
-		case opt(lo.ChecksumCRC32) != o.expCRC:
-			recorded = fmt.Sprintf("FAIL:object %d (%s): recorded CRC32 %q, bytes and checksum type say %q", idx, toks[idx], opt(lo.ChecksumCRC32), o.expCRC)
-		case opt(lo.ChecksumSHA256) != o.expSHA:
-			recorded = fmt.Sprintf("FAIL:object %d (%s): recorded SHA256 %q, bytes and checksum type say %q", idx, toks[idx], opt(lo.ChecksumSHA256), o.expSHA)
-		case o.expType != "?" && opt(lo.ChecksumType) != o.expType:
-			recorded = fmt.Sprintf("FAIL:object %d (%s): recorded checksum type %q, expected %q", idx, toks[idx], opt(lo.ChecksumType), o.expType)
-		}
-	}
-	// ---- corrupt part files (each file at most once) and tamper recorded checksums
-	modified := map[string]bool{}
-	for i := range objs {
-		var files []string
-		var etag, ctype string
-		var crc *string
+	partFiles := func(bucket storage.BucketName, key storage.ObjectKey) (files []string, etag string, crc *string, ctype string) {
 		err := database.WithTx(ctx, db, &sql.TxOptions{ReadOnly: true}, func(ctx context.Context, tx database.Tx) error {
-			oe, err := objectRepository.FindObjectByBucketNameAndKey(ctx, tx.SqlTx(), bucket, objs[i].key)
+			oe, err := objectRepository.FindObjectByBucketNameAndKey(ctx, tx.SqlTx(), bucket, key)
 			if err != nil {
 				return err
 			}
@@ -457,36 +484,173 @@ func (c39) Run(in string, scratch string) Result {
 			return nil
 		})
 		must(err)
-		if len(files) != len(objs[i].faults) {
-			return Result{Out: fmt.Sprintf("SETUP-MISMATCH obj %d %s has %d parts", i, toks[i], len(files)), Oracle: "FAIL:setup: unexpected number of parts", Tags: []string{"setup-error"}}
+		return
+	}
+	// ---- objects
+	for bi, bk := range buckets {
+		bucket := bk.name
+		bk.objs = make([]c39Obj, len(bk.toks))
+		objs := bk.objs
+		multipart := func(o *c39Obj, seed int, typ *string, np int) {
+			up, err := st.CreateMultipartUpload(ctx, bucket, o.key, nil, typ, nil)
+			must(err)
+			for p := 0; p < np; p++ {
+				b := c39Content(seed, p, 25+seed%50+p)
+				o.parts = append(o.parts, b)
+				o.content = append(o.content, b...)
+				_, err := st.UploadPart(ctx, bucket, o.key, up.UploadId, int32(p+1), bytes.NewReader(b), nil)
+				must(err)
+			}
+			_, err = st.CompleteMultipartUpload(ctx, bucket, o.key, up.UploadId, nil, nil)
+			must(err)
 		}
-		objs[i].files = files
-		for p, fn := range files {
-			if modified[fn] || objs[i].faults[p] == 'N' {
-				continue
+		for i, t := range bk.toks {
+			o := c39ParseObj(t)
+			seed := bi*100 + i
+			o.key = storage.MustNewObjectKey(fmt.Sprintf("obj-%02d", i))
+			if o.hasOld {
+				o.oldContent = c39Content(seed, 99, 33+seed%40)
+				_, err := st.PutObject(ctx, bucket, o.key, nil, bytes.NewReader(o.oldContent), nil, nil)
+				must(err)
+				fs, _, _, _ := partFiles(bucket, o.key)
+				o.oldFile = fs[0]
 			}
-			b, err := os.ReadFile(fn)
-			if err != nil {
-				continue
+			switch o.kind {
+			case "S", "E", "T":
+				switch o.kind {
+				case "S":
+					o.content = c39Content(seed, 0, 40+seed%50)
+				case "T":
+					o.content = objs[o.ref].content
+				}
+				o.parts = [][]byte{o.content}
+				_, err := st.PutObject(ctx, bucket, o.key, nil, bytes.NewReader(o.content), nil, nil)
+				must(err)
+				o.expectPlain()
+			case "M":
+				multipart(&o, seed, nil, o.n)
+				o.expectMultipart("FULL_OBJECT") // an unspecified checksum type is recorded/validated as FULL_OBJECT
+				o.expType = "?"
+			case "F":
+				typ := storage.ChecksumTypeFullObject
+				multipart(&o, seed, &typ, o.n)
+				o.expectMultipart("FULL_OBJECT")
+			case "C":
+				typ := storage.ChecksumTypeComposite
+				multipart(&o, seed, &typ, o.n)
+				o.expectMultipart("COMPOSITE")
+			case "A", "A1", "AC":
+				switch o.kind {
+				case "A":
+					b := c39Content(seed, 0, 30+seed%50)
+					o.parts, o.content = [][]byte{b}, append([]byte{}, b...)
+					_, err := st.PutObject(ctx, bucket, o.key, nil, bytes.NewReader(b), nil, nil)
+					must(err)
+				case "AC":
+					typ := storage.ChecksumTypeComposite
+					multipart(&o, seed, &typ, 2)
+				}
+				b := c39Content(seed, 7, 20+seed%50)
+				o.parts = append(o.parts, b)
+				o.content = append(o.content, b...)
+				_, err := st.AppendObject(ctx, bucket, o.key, bytes.NewReader(b), nil, nil)
+				must(err)
+				o.expETag, o.expCRC, o.expSHA, o.expType = c39MultiETag(o.parts), "", "", "FULL_OBJECT"
+			case "K":
+				src := objs[o.ref]
+				_, err := st.CopyObject(ctx, bucket, src.key, bucket, o.key, nil)
+				must(err)
+				o.parts, o.content = src.parts, src.content
+				o.expETag, o.expCRC, o.expSHA, o.expType = src.expETag, src.expCRC, src.expSHA, src.expType
+			case "R", "P":
+				src := objs[o.ref]
+				s, e := int64(0), int64(len(src.content))
+				if o.kind == "P" {
+					s, e = 1, e-1
+				}
+				_, err := st.CopyObject(ctx, bucket, src.key, bucket, o.key, &storage.CopyObjectOptions{Range: &storage.ByteRange{Start: &s, End: &e}})
+				must(err)
+				o.content = src.content[s:e]
+				o.parts = [][]byte{o.content}
+				o.expectPlain()
+				o.expType = "FULL_OBJECT"
 			}
-			switch objs[i].faults[p] {
-			case 'F':
-				if len(b) > 0 {
-					b[len(b)/2] ^= 0x20
-					must(os.WriteFile(fn, b, 0o600))
-					modified[fn] = true
+			o.nparts = len(o.parts)
+			objs[i] = o
+		}
+	}
+	// ---- what the storage recorded, against the independent arithmetic
+	recorded := "OK"
+	for _, bk := range buckets {
+		listed0, err := storage.ListAllObjectsOfBucket(ctx, st, bk.name)
+		must(err)
+		for _, lo := range listed0 {
+			var idx int
+			fmt.Sscanf(lo.Key.String(), "obj-%02d", &idx)
+			o := &bk.objs[idx]
+			opt := func(p *string) string {
+				if p == nil {
+					return ""
 				}
-			case 'T':
-				if len(b) > 0 {
-					must(os.WriteFile(fn, b[:len(b)-1], 0o600))
-					modified[fn] = true
-				}
-			case 'X':
-				must(os.Remove(fn))
+				return *p
+			}
+			what := fmt.Sprintf("%s/%d (%s)", bk.name.String(), idx, bk.toks[idx])
+			switch {
+			case c39Unquote(lo.ETag) != o.expETag:
+				recorded = fmt.Sprintf("FAIL:object %s: recorded ETag %s, bytes say %s", what, lo.ETag, o.expETag)
+			case opt(lo.ChecksumCRC32) != o.expCRC:
+				recorded = fmt.Sprintf("FAIL:object %s: recorded CRC32 %q, bytes and checksum type say %q", what, opt(lo.ChecksumCRC32), o.expCRC)
+			case opt(lo.ChecksumSHA256) != o.expSHA:
+				recorded = fmt.Sprintf("FAIL:object %s: recorded SHA256 %q, bytes and checksum type say %q", what, opt(lo.ChecksumSHA256), o.expSHA)
+			case o.expType != "?" && opt(lo.ChecksumType) != o.expType:
+				recorded = fmt.Sprintf("FAIL:object %s: recorded checksum type %q, expected %q", what, opt(lo.ChecksumType), o.expType)
+			}
+		}
+	}
+	// ---- corrupt part files (each file at most once, bucket order, object order, older version first) and tamper records
+	modified := map[string]bool{}
+	applyFault := func(fn string, fault byte) {
+		if modified[fn] || fault == 'N' {
+			return
+		}
+		b, err := os.ReadFile(fn)
+		if err != nil {
+			return
+		}
+		switch fault {
+		case 'F':
+			if len(b) > 0 {
+				b[len(b)/2] ^= 0x20
+				must(os.WriteFile(fn, b, 0o600))
 				modified[fn] = true
 			}
+		case 'T':
+			if len(b) > 0 {
+				must(os.WriteFile(fn, b[:len(b)-1], 0o600))
+				modified[fn] = true
+			}
+		case 'X':
+			must(os.Remove(fn))
+			modified[fn] = true
 		}
-		if objs[i].tamper != "" {
+	}
+	for _, bk := range buckets {
+		objs := bk.objs
+		for i := range objs {
+			files, etag, crc, ctype := partFiles(bk.name, objs[i].key)
+			if len(files) != len(objs[i].faults) {
+				return Result{Out: fmt.Sprintf("SETUP-MISMATCH %s obj %d %s has %d parts", bk.name.String(), i, bk.toks[i], len(files)), Oracle: "FAIL:setup: unexpected number of parts", Tags: []string{"setup-error"}}
+			}
+			objs[i].files = files
+			if objs[i].hasOld {
+				applyFault(objs[i].oldFile, objs[i].oldFault)
+			}
+			for p, fn := range files {
+				applyFault(fn, objs[i].faults[p])
+			}
+			if objs[i].tamper == "" {
+				continue
+			}
 			swapLast := func(s string) string {
 				q := strings.HasSuffix(s, "\"")
 				s = strings.TrimSuffix(s, "\"")
@@ -540,11 +704,12 @@ func (c39) Run(in string, scratch string) Result {
 			}
 			if col != "" {
 				err := database.WithTx(ctx, db, &sql.TxOptions{}, func(ctx context.Context, tx database.Tx) error {
-					if _, err := tx.SqlTx().ExecContext(ctx, "UPDATE objects SET "+col+" = ? WHERE key = ?", val, objs[i].key.String()); err != nil {
+					const where = " = ? WHERE bucket_name = ? AND key = ? AND is_latest = 1"
+					if _, err := tx.SqlTx().ExecContext(ctx, "UPDATE objects SET "+col+where, val, bk.name.String(), objs[i].key.String()); err != nil {
 						return err
 					}
 					if col2 != "" {
-						_, err := tx.SqlTx().ExecContext(ctx, "UPDATE objects SET "+col2+" = ? WHERE key = ?", val2, objs[i].key.String())
+						_, err := tx.SqlTx().ExecContext(ctx, "UPDATE objects SET "+col2+where, val2, bk.name.String(), objs[i].key.String())
 						return err
 					}
 					return nil
@@ -553,128 +718,262 @@ func (c39) Run(in string, scratch string) Result {
 			}
 		}
 	}
-	// expected verdict (independent of the validator): a referenced part file was modified, or the recorded object
-	// checksums were changed in a way that no longer describes the parts
-	for i := range objs {
-		for _, fn := range objs[i].files {
-			if modified[fn] {
-				objs[i].corrupt = true
+	// expected verdict (independent of the validator)
+	for _, bk := range buckets {
+		for i := range bk.objs {
+			o := &bk.objs[i]
+			for _, fn := range o.files {
+				if modified[fn] {
+					o.corrupt = true
+				}
+			}
+			if o.hasOld && bk.versioned && modified[o.oldFile] {
+				o.oldCorrupt = true
+			}
+			switch o.tamper {
+			case "e", "n":
+				o.corrupt = true
+			case "c":
+				if o.expCRC != "" {
+					o.corrupt = true
+				}
+			case "t":
+				if o.nparts >= 2 && o.expCRC != "" {
+					o.corrupt = true
+				}
 			}
 		}
-		o := &objs[i]
-		switch o.tamper {
-		case "e", "n":
-			o.corrupt = true
-		case "c":
-			if o.expCRC != "" {
-				o.corrupt = true
-			}
-		case "t":
-			// only typed multi-part checksum values depend on the type
-			if o.nparts >= 2 && o.expCRC != "" {
-				o.corrupt = true
-			}
-		}
+	}
+	// ---- full listing of every bucket before the run
+	before := make([]map[string][]c39Ver, len(buckets))
+	for bi, bk := range buckets {
+		before[bi] = c39Versions(ctx, st, bk.name)
 	}
 	dbc := config.NewDbContainer()
 	dbc.AddDb(db)
 	v := integrity.NewValidator(st, dbc, mode == "D", true)
-	listed, err := storage.ListAllObjectsOfBucket(ctx, st, bucket)
-	must(err)
-	sort.Slice(listed, func(a, b int) bool { return listed[a].Key.String() < listed[b].Key.String() })
-	per := bytes.Repeat([]byte{'?'}, len(objs))
-	for _, o := range listed {
-		var idx int
-		fmt.Sscanf(o.Key.String(), "obj-%02d", &idx)
-		res, err := integrity.VerifValidateObject(v, ctx, db, ps, bucket, o)
+	pers := make([]string, len(buckets))
+	for bi, bk := range buckets {
+		listed, err := storage.ListAllObjectsOfBucket(ctx, st, bk.name)
 		must(err)
-		if res.Success {
-			per[idx] = '-'
-		} else {
-			per[idx] = 'R'
-			if os.Getenv("C39_DEBUG") != "" {
-				fmt.Fprintf(os.Stderr, "DEBUG %s %s: %s %+v %+v\n", o.Key.String(), toks[idx], res.ErrorType, res.PartFailures, res.ObjectFailures)
+		per := bytes.Repeat([]byte{'?'}, len(bk.objs))
+		for _, o := range listed {
+			var idx int
+			fmt.Sscanf(o.Key.String(), "obj-%02d", &idx)
+			res, err := integrity.VerifValidateObject(v, ctx, db, ps, bk.name, o)
+			must(err)
+			if res.Success {
+				per[idx] = '-'
+			} else {
+				per[idx] = 'R'
+				if os.Getenv("C39_DEBUG") != "" {
+					fmt.Fprintf(os.Stderr, "DEBUG %s %s %s: %s %+v %+v\n", bk.name.String(), o.Key.String(), bk.toks[idx], res.ErrorType, res.PartFailures, res.ObjectFailures)
+				}
 			}
 		}
+		pers[bi] = string(per)
 	}
 	// ---- the real entry point
 	va := "ERR"
 	vaOK := false
-	report, err := v.ValidateAll(ctx)
-	if err == nil {
+	alls := make([][]byte, len(buckets))
+	for bi, bk := range buckets {
+		alls[bi] = bytes.Repeat([]byte{'?'}, len(bk.objs))
+	}
+	counters := ""
+	report, verr := v.ValidateAll(ctx)
+	if verr == nil {
 		vaOK = true
-		all := bytes.Repeat([]byte{'?'}, len(objs))
 		for _, res := range report.Results {
 			var idx int
 			fmt.Sscanf(res.ObjectKey, "obj-%02d", &idx)
+			bi, ok := bucketIdx[res.BucketName]
+			if !ok || idx >= len(alls[bi]) {
+				counters += "!unknown-object-in-report"
+				continue
+			}
 			switch {
+			case alls[bi][idx] != '?':
+				alls[bi][idx] = '2' // reported twice
 			case res.Success:
-				all[idx] = '-'
+				alls[bi][idx] = '-'
 			case res.ActionTaken == "Deleted":
-				all[idx] = 'D'
+				alls[bi][idx] = 'D'
 			default:
-				all[idx] = 'R'
+				alls[bi][idx] = 'R'
 			}
 		}
-		after, err := storage.ListAllObjectsOfBucket(ctx, st, bucket)
-		must(err)
-		present := map[string]bool{}
-		for _, o := range after {
-			present[o.Key.String()] = true
-		}
-		for i := range objs {
-			if (all[i] == 'D') == present[objs[i].key.String()] {
-				all[i] = '!'
-			}
-		}
-		va = fmt.Sprintf("%s:%d/%d/%d", string(all), report.TotalObjects, report.FailedObjects, report.DeletedObjects)
-		if report.SuccessfulObjects+report.FailedObjects != report.TotalObjects || report.TotalBuckets != 1 {
-			va += "!counters"
+		counters = fmt.Sprintf(":%d/%d/%d", report.TotalObjects, report.FailedObjects, report.DeletedObjects) + counters
+		if report.SuccessfulObjects+report.FailedObjects != report.TotalObjects || report.TotalBuckets != len(buckets) {
+			counters += "!counters"
 		}
 	}
-	out := va + " | " + string(per)
+	// ---- full listing + contents after the run
+	posts := make([]string, len(buckets))
+	for bi, bk := range buckets {
+		after := c39Versions(ctx, st, bk.name)
+		post := make([]byte, len(bk.objs))
+		for i := range bk.objs {
+			o := &bk.objs[i]
+			key := o.key.String()
+			bv, av := before[bi][key], after[key]
+			same := func(a, b []c39Ver) bool {
+				if len(a) != len(b) {
+					return false
+				}
+				for k := range a {
+					if a[k] != b[k] {
+						return false
+					}
+				}
+				return true
+			}
+			switch {
+			case same(bv, av):
+				post[i] = 'K'
+			case len(av) == 0:
+				post[i] = 'G'
+			default:
+				post[i] = '!'
+				// all former versions kept (none latest any more) + exactly one new latest delete marker
+				if len(av) == len(bv)+1 {
+					old := map[string]c39Ver{}
+					for _, x := range bv {
+						old[x.id] = x
+					}
+					okm, newMarkers := true, 0
+					for _, x := range av {
+						if ov, was := old[x.id]; was {
+							if x.latest || x.marker != ov.marker {
+								okm = false
+							}
+						} else if x.marker && x.latest {
+							newMarkers++
+						} else {
+							okm = false
+						}
+					}
+					if okm && newMarkers == 1 {
+						post[i] = 'M'
+					}
+				}
+			}
+			// contents of surviving intact versions
+			if post[i] == 'K' || post[i] == 'M' {
+				var curID, oldID string
+				for _, x := range bv {
+					if x.marker {
+						continue
+					}
+					if x.latest {
+						curID = x.id
+					} else {
+						oldID = x.id
+					}
+				}
+				if !o.corrupt {
+					if got, err := c39ReadVersion(ctx, st, bk.name, o.key, bk.versioned, curID); err != nil || !bytes.Equal(got, o.content) {
+						post[i] = '!'
+					}
+				}
+				if bk.versioned && o.hasOld && !o.oldCorrupt && oldID != "" {
+					if got, err := c39ReadVersion(ctx, st, bk.name, o.key, true, oldID); err != nil || !bytes.Equal(got, o.oldContent) {
+						post[i] = '!'
+					}
+				}
+			}
+		}
+		posts[bi] = string(post)
+	}
+	if vaOK {
+		ls := make([]string, len(alls))
+		for bi := range alls {
+			ls[bi] = string(alls[bi])
+		}
+		va = strings.Join(ls, "/") + counters
+	}
+	out := va + " | " + strings.Join(posts, "/") + " | " + strings.Join(pers, "/")
 
 	// ---- direct oracle
 	oracle := recorded
-	tags := []string{"mode-" + mode}
-	anyCorrupt, onePart, shared := false, false, false
+	tags := []string{"mode-" + mode, fmt.Sprintf("buckets-%d", len(buckets))}
+	anyCorrupt, onePart, shared, oldCorrupt, versionedDelete, nonLast := false, false, false, false, false, false
 	seenFile := map[string]int{}
-	for i, o := range objs {
-		if o.corrupt {
-			anyCorrupt = true
-		}
-		for _, fn := range o.files {
-			seenFile[fn]++
-			if seenFile[fn] > 1 {
-				shared = true
-			}
-		}
-		// the recorded finding: objects with a multipart-style ETag and exactly one part
-		if o.nparts == 1 && strings.Contains(o.expETag, "-") {
-			onePart = true
-		}
-		if oracle != "OK" {
-			continue
-		}
-		switch {
-		case vaOK && !o.corrupt && va[i] == 'D':
-			oracle = fmt.Sprintf("FAIL:intact object %d (%s) was DELETED by ValidateAll in delete mode", i, toks[i])
-		case o.corrupt && per[i] != 'R':
-			oracle = fmt.Sprintf("FAIL:corrupted object %d (%s) is not reported by validateObject", i, toks[i])
-		case !o.corrupt && per[i] != '-':
-			oracle = fmt.Sprintf("FAIL:intact object %d (%s) is reported as corrupted by validateObject", i, toks[i])
-		case vaOK && o.corrupt && va[i] != 'R' && va[i] != 'D':
-			oracle = fmt.Sprintf("FAIL:corrupted object %d (%s) not reported by ValidateAll", i, toks[i])
-		case vaOK && !o.corrupt && va[i] != '-':
-			oracle = fmt.Sprintf("FAIL:intact object %d (%s) reported by ValidateAll", i, toks[i])
-		case vaOK && mode != "D" && va[i] == 'D':
-			oracle = fmt.Sprintf("FAIL:object %d deleted although delete mode is off", i)
-		case vaOK && mode == "D" && o.corrupt && va[i] != 'D':
-			oracle = fmt.Sprintf("FAIL:corrupted object %d not deleted in delete mode", i)
+	nDel, nGone, nFlag, nObjs := 0, 0, 0, 0
+	fail := func(format string, a ...any) {
+		if oracle == "OK" {
+			oracle = "FAIL:" + fmt.Sprintf(format, a...)
 		}
 	}
-	if oracle == "OK" && !vaOK {
-		oracle = "FAIL:ValidateAll returned an error: " + err.Error()
+	for bi, bk := range buckets {
+		for i, o := range bk.objs {
+			nObjs++
+			what := fmt.Sprintf("%s/obj-%02d (%s)", bk.name.String(), i, bk.toks[i])
+			per, all, post := pers[bi][i], alls[bi][i], posts[bi][i]
+			if o.corrupt {
+				anyCorrupt = true
+				nFlag++
+				if bi < len(buckets)-1 {
+					nonLast = true
+				}
+			}
+			if o.oldCorrupt {
+				oldCorrupt = true
+			}
+			for _, fn := range o.files {
+				seenFile[fn]++
+				if seenFile[fn] > 1 {
+					shared = true
+				}
+			}
+			if o.nparts == 1 && strings.Contains(o.expETag, "-") {
+				onePart = true
+			}
+			if all == 'D' {
+				nDel++
+			}
+			if post != 'K' {
+				nGone++
+			}
+			if bk.versioned && mode == "D" && o.corrupt {
+				versionedDelete = true
+			}
+			switch {
+			case !o.corrupt && post != 'K':
+				fail("intact object %s did not survive the run unchanged (post-state %c, report %c)", what, post, all)
+			case mode != "D" && post != 'K':
+				fail("report-only run changed object %s (post-state %c)", what, post)
+			case o.corrupt && per != 'R':
+				fail("corrupted object %s is not reported by validateObject", what)
+			case !o.corrupt && per != '-':
+				fail("intact object %s is reported as corrupted by validateObject", what)
+			case vaOK && o.corrupt && all != 'R' && all != 'D':
+				fail("corrupted object %s not reported by ValidateAll (%c)", what, all)
+			case vaOK && !o.corrupt && all != '-':
+				fail("intact object %s reported by ValidateAll (%c)", what, all)
+			case vaOK && mode == "D" && o.corrupt && all != 'D':
+				fail("corrupted object %s not deleted in delete mode", what)
+			case vaOK && mode == "D" && o.corrupt && post != 'G':
+				fail("corrupted object %s reported as Deleted but its corrupted version is still stored (post-state %c)", what, post)
+			}
+		}
+	}
+	if vaOK {
+		if report.DeletedObjects != nDel || nDel != nGone {
+			fail("DeletedObjects=%d, report entries 'Deleted'=%d, objects that changed/disappeared=%d", report.DeletedObjects, nDel, nGone)
+		}
+		if report.TotalObjects != nObjs {
+			fail("TotalObjects=%d but %d objects exist", report.TotalObjects, nObjs)
+		}
+		if mode == "D" && nDel != nFlag {
+			fail("%d objects deleted, %d corrupted", nDel, nFlag)
+		}
+	} else {
+		fail("ValidateAll returned an error: %v", verr)
+	}
+	// noncurrent versions are objects with stored bytes too
+	if oracle == "OK" && oldCorrupt {
+		oracle = "FAIL:a corrupted noncurrent version is not reported (ValidateAll only looks at current versions)"
 	}
 	if anyCorrupt {
 		tags = append(tags, "corrupted")
@@ -682,16 +981,25 @@ func (c39) Run(in string, scratch string) Result {
 		tags = append(tags, "all-intact")
 	}
 	kindsSeen := map[string]bool{}
-	for _, o := range objs {
-		k := o.kind
-		if o.tamper != "" {
-			kindsSeen["tamper-"+o.tamper] = true
+	anyVersioned := false
+	for _, bk := range buckets {
+		if bk.versioned {
+			anyVersioned = true
 		}
-		switch k {
-		case "K", "R", "P":
-			k = "copy-" + k + "-of-" + objs[o.ref].kind
+		for _, o := range bk.objs {
+			k := o.kind
+			if o.tamper != "" {
+				kindsSeen["tamper-"+o.tamper] = true
+			}
+			if o.hasOld {
+				kindsSeen["older-version"] = true
+			}
+			switch k {
+			case "K", "R", "P":
+				k = "copy-" + k + "-of-" + bk.objs[o.ref].kind
+			}
+			kindsSeen["kind-"+k] = true
 		}
-		kindsSeen["kind-"+k] = true
 	}
 	ks := []string{}
 	for k := range kindsSeen {
@@ -699,11 +1007,23 @@ func (c39) Run(in string, scratch string) Result {
 	}
 	sort.Strings(ks)
 	tags = append(tags, ks...)
+	if anyVersioned {
+		tags = append(tags, "versioned-bucket")
+	}
+	if nonLast {
+		tags = append(tags, "corrupt-in-non-last-bucket")
+	}
 	if shared {
 		tags = append(tags, "shared-parts")
 	}
 	if onePart {
 		tags = append(tags, "one-part-multipart", "kf:C39-one-part-multipart-false-positive")
+	}
+	if versionedDelete {
+		tags = append(tags, "kf:C39-versioned-delete-leaves-corrupted-version")
+	}
+	if oldCorrupt {
+		tags = append(tags, "kf:C39-noncurrent-versions-not-validated")
 	}
 	if vaOK && mode == "D" && anyCorrupt {
 		tags = append(tags, "deletes")
